@@ -27,7 +27,10 @@ RULE = ("define/clear/evaluate histories: definition chains (N = kg*m/s^2, J = N
         "clear_unit_definitions().  The result's unit string is read back with the library's "
         "parser, expanded by the harness's own expansion and compared with exact dimensional "
         "analysis of the expanded operands (independent oracle) and with the Lean model.  "
-        "Non-trivial = a named unit with |exponent| >= 2 or a +/- with named and expanded operands")
+        "Non-trivial = a named unit with |exponent| >= 2 or a +/- with named and expanded operands.  "
+        "After the final clear also base-symbol operands whose result has the dimension of a power "
+        "of a former name; histories that start a new process (no reset before the first request: "
+        "definition, clear, style or evaluation first), executed in forks of a fresh interpreter")
 ASSUMPTIONS = ["definitions mention only base symbols and earlier names (no cycles: the code has no "
                "cycle check and would recurse without bound)",
                "the dimensionless-intermediate limitation of C08 applies (expanded dimension of "
